@@ -226,9 +226,21 @@ class Checker:
     self.snaps = {id(c): snap(c) for c in self.env.cfgs}
     self.n_before = len(self.env.cfgs)
 
-  def check_final(self, cfg, tid, label):
-    """Invariant (1) on a whole config."""
+  def check_final(self, cfg, tid, label, src_snap=None):
+    """Invariant (1) on a whole config (a new one, or a fresh copy).
+
+    For a copy the entries still hold the objects that were stored in the
+    SOURCE (HistoryEntry is shared by deepcopy), and those may have been
+    mutated in place since; so a key whose last entry is the source's last
+    entry (same sequence id) is fine by induction.
+    """
     args, tags, hist = snap(cfg)
+    src_last = {}
+    if src_snap is not None:
+      for k, lst in src_snap[2].items():
+        vals = [e for e in lst if e.kind.name == 'NEW_VALUE']
+        if vals:
+          src_last[k] = vals[-1].sequence_id
     sv = self.stale_val.setdefault(id(cfg), set())
     st = self.stale_tag.setdefault(id(cfg), set())
     for k in set(args) | set(hist):
@@ -244,6 +256,8 @@ class Checker:
           return False
         continue
       last = vals[-1].new_value
+      if src_last.get(k) == vals[-1].sequence_id:
+        continue
       if cur is ABSENT:
         ok = isinstance(last, type(fdl_history.DELETED))
       else:
@@ -299,7 +313,9 @@ class Checker:
           else:
             self.stale_val.setdefault(id(cfg), set()).update(op.get('kwargs', {}))
           continue
-        if not self.check_final(cfg, tid, f'op #{idx} {label} (new config)'):
+        src_snap = self.snaps.get(id(src)) if src is not None else None
+        if not self.check_final(cfg, tid, f'op #{idx} {label} (new config)',
+                                src_snap):
           return
         if label in DIRECT:
           if not self.check_locations(cfg, {}, tid, idx, label):
